@@ -45,7 +45,63 @@ package fasthttp
 //@   ensures[first-blank-line-ends-block] !old(s.initialized) && s.initialized && !(0 < old(s.blockEnd) && old(s.blockEnd) <= old(len(s.b))) ==> forall k in [0, len(s.b) - 1): !blankAt(s.b, k)
 
 // readContinuedLineSlice never asks for more input: its errors are malformed-line errors.
+// readContinuedLineSlice never asks for more input: its errors are malformed-line errors. (Its memory safety -- the
+// unguarded s.b[s.r] in skipSpace is in range because every block ends with a blank line and continuation lines are
+// joined behind the read position -- was attempted in exact mode and did not discharge within the time budget; it is
+// not claimed.)
 //@ func headerScanner.readContinuedLineSlice results line colon err
 //@   property C09
 //@   mode skeleton
 //@   ensures[not-need-more] err != ErrNeedMore
+
+// ---- memory safety and basic shape of the scanner's helpers (C08) ----
+
+//@ func isASCIILetter results r
+//@   property C08 C32
+//@   pure
+//@   ensures[def] r == ((65 <= b && b <= 90) || (97 <= b && b <= 122))
+
+// trim returns a window of its argument without leading and trailing blanks.
+//@ func trim results r
+//@   property C08
+//@   pure
+//@   ensures[window] rgn(r) == rgn(s) && off(s) <= off(r) && off(r) + len(r) <= off(s) + len(s)
+//@   ensures[trimmed] len(r) == 0 || (r[0] != ' ' && r[0] != 9 && r[len(r)-1] != ' ' && r[len(r)-1] != 9)
+//@   loop 1:
+//@     invariant[range] 0 <= i && i <= len(s)
+//@     decreases len(s) - i
+//@   loop 2:
+//@     invariant[range] i <= n && n <= len(s)
+//@     decreases n
+
+// isValidHeaderKey: a key is valid when it is non-empty and made of token characters and spaces.
+//@ func isValidHeaderKey results valid innerSpace
+//@   property C08 C09
+//@   pure
+//@   ensures[def] valid == (len(a) > 0 && forall j in [0, len(a)): a[j] == ' ' || istchar(a[j]))
+//@   loop 1:
+//@     invariant[valid-so-far] forall j in [0, _i): a[j] == ' ' || istchar(a[j])
+
+// readLine: the next line of the block (without its line terminator), or nil when no '\n' is left; the read
+// position only moves forward and stays inside the block.
+//@ func headerScanner.readLine results line
+//@   property C08 C09
+//@   requires[position-in-block] 0 <= s.r && s.r <= len(s.b)
+//@   modifies s
+//@   ensures[advances-inside] old(s.r) <= s.r && s.r <= len(s.b) && sameSlice(s.b, old(s.b))
+//@   ensures[none-left] rgn(line) == 0 ==> s.r == old(s.r) && forall k in [old(s.r), len(s.b)): s.b[k] != 10
+//@   ensures[line-window] rgn(line) != 0 ==> rgn(line) == rgn(s.b) && off(line) == off(s.b) + old(s.r) && old(s.r) + len(line) < s.r &&
+//@                        s.b[s.r - 1] == 10 && forall k in [old(s.r), s.r - 1): s.b[k] != 10
+
+// skipSpace: inside a block that ends in '\n' the scan for a non-blank byte stays in range.
+//@ func headerScanner.skipSpace results skipped
+//@   property C08
+//@   requires[block-ends-in-newline] len(s.b) > 0 && s.b[len(s.b)-1] == 10 && 0 <= s.r && s.r < len(s.b)
+//@   modifies s
+//@   ensures[stops-at-non-blank] old(s.r) <= s.r && s.r < len(s.b) && s.b[s.r] != ' ' && s.b[s.r] != 9 && sameSlice(s.b, old(s.b))
+//@   ensures[skipped-iff-moved] skipped == (s.r > old(s.r))
+//@   ensures[only-blanks-skipped] forall k in [old(s.r), s.r): s.b[k] == ' ' || s.b[k] == 9
+//@   loop 1:
+//@     invariant[in-range] old(s.r) <= s.r && s.r < len(s.b) && sameSlice(s.b, old(s.b)) && skipped == (s.r > old(s.r))
+//@     invariant[blanks-so-far] forall k in [old(s.r), s.r): s.b[k] == ' ' || s.b[k] == 9
+//@     decreases len(s.b) - s.r
